@@ -16,19 +16,26 @@ func LangTagConverter(century int, dateFormat DateFormat) func(float64, string, 
 		TAG = 0
 		P1 = 0
 		P2 = 0
-		for ok := true; ok; ok = P1 == 0 {
+		// each search covers at most one full year: below about 30 (49) degrees of latitude the day
+		// never exceeds 14 (16) hours and the unbounded search never returned
+		for ok := true; ok; ok = P1 == 0 && TAG < 366 {
 			TAG++
 			DL, _, _, _, _, _, _ := CalculateDayLenght(float64(TAG), LAT)
 			if DL > 14 {
 				P1 = TAG
 			}
 		}
-		for ok := true; ok; ok = P2 == 0 {
+		firstSearchEnd := TAG
+		for ok := true; ok; ok = P2 == 0 && TAG < firstSearchEnd+366 {
 			TAG++
 			DL, _, _, _, _, _, _ := CalculateDayLenght(float64(TAG), LAT)
 			if DL > 16 {
 				P2 = TAG // Beginn Große Periode
 			}
+		}
+		if P1 == 0 {
+			// the day never gets longer than 14 h at this latitude: no long-day dates (0 = never)
+			return 1, 0, 0
 		}
 		if progDat[1] != '-' {
 			var progja int
